@@ -155,8 +155,10 @@ class Ctx:
             "violations": sum(v[3] for v in self.violations),
         }
         cov["violation_signatures"] = [{"signature": v[0], "what": v[1], "replay": v[2], "count": v[3]} for v in self.violations]
-        (VERIF / "evidence").mkdir(exist_ok=True)
-        (VERIF / "evidence" / (self.pid + ".json")).write_text(json.dumps(ev, indent=1, default=str) + "\n")
+        # evidence describes the tree under /repo; a run against another tree (VERIF_REPO: seeded changes, experiments) must not replace it
+        evdir = VERIF / "evidence" if str(REPO) == "/repo" else VERIF / "out" / "evidence-other-tree"
+        evdir.mkdir(parents=True, exist_ok=True)
+        (evdir / (self.pid + ".json")).write_text(json.dumps(ev, indent=1, default=str) + "\n")
         print(
             "%s %s: states=%d transitions=%d traces_validated=%d evaluations=%d distinct=%d drift=%d known=%d violations=%d wall=%.1fs"
             % (self.pid, self.tier, cov["states"], cov["transitions"], cov["traces_validated_against_impl"], cov["evaluations"],
